@@ -84,8 +84,8 @@ Table ==
     tx_conflict_BA_high   |-> K("txs", RR, [txdef |-> "mutual_evict"], {}),
     tx_conflict_AB_low    |-> K("txs", RR, [txdef |-> "mutual_evict"], {}),
     tx_conflict_AB_high   |-> K("txs", RR, [txdef |-> "mutual"], {}),
-    tx_conflict_BA_foreign |-> K("txs", RR, [txdef |-> "mutual"], {}),
-    tx_conflict_AB_foreign |-> K("txs", RR, [txdef |-> "mutual_evict"], {}),
+    tx_conflict_BA_foreign |-> K("txs", RR, [txdef |-> "mutual"], {"h1"}),
+    tx_conflict_AB_foreign |-> K("txs", RR, [txdef |-> "mutual_evict"], {"h1"}),
     enc_truncated     |-> K("enc",  R,  None, {}),
     enc_trailing      |-> K("enc",  R,  None, {}),
     enc_nonminimal    |-> K("enc",  R,  None, {}) ]
